@@ -666,6 +666,24 @@ def search(ctx):
     budget = 240 if ctx.quick() else 900
     import time
     t0 = time.time()
+    # call histories on ONE instance: every evaluation-mode call must return, bit for bit, what the same call returns when it is the
+    # first call on a fresh identical model (a side effect on the model that is neither a parameter nor a buffer is visible only so)
+    for (cfg, mode, seq, hseed) in history_cases('thorough', ctx.seed):
+        if mode != 'eval' or time.time() - t0 > budget / 3:
+            continue
+        try:
+            h = run_history(cfg, mode, seq, hseed)
+        except Exception:
+            continue
+        if h.get('order_ok') is False:
+            match = {'config': cfg.name, 'mode': mode, 'call': 'history', 'tensor': 'output', 'symptom': 'history-dependent'}
+            k = json.dumps(match, sort_keys=True)
+            if k not in seen:
+                seen.add(k)
+                ctx.fail('results of %s depend on the calls made before on the same instance (history %s)' % (cfg.name, [list(q) for q in seq]),
+                         {'config': cfg.name, 'mode': mode, 'history': [list(q) for q in seq], 'seed': hseed}, detail=None, match=match)
+        if len(ctx.failing) >= 5:
+            return
     for seed in (ctx.seed, ctx.seed + 1):
         for case in enumerate_cases('thorough', seed, kinds_full=True):
             if time.time() - t0 > budget:
@@ -691,7 +709,15 @@ def _case_from_ident(d):
 def replay(ctx, payload):
     torch.set_num_threads(1)
     f = payload.get('failing') or {}
-    case = _case_from_ident(f.get('case') or {})
+    fc = f.get('case') or {}
+    if 'history' in fc:
+        reg = {c.name: c for c in zoo.registry()}
+        cfg = reg.get(fc.get('config'))
+        if cfg is None:
+            return None
+        h = run_history(cfg, fc['mode'], [tuple(q) for q in fc['history']], int(fc['seed']))
+        return h.get('order_ok') is False
+    case = _case_from_ident(fc)
     if case is None:
         return None
     fails = oracle_case(case)
